@@ -20,6 +20,8 @@ def streams(tier, rng):
 
 post = pc.post
 
+shrink = pc.shrink
+
 MANIFEST = {
     "text": "Coq theorems over ALL reachable states of a labelled transition system of pool.rs (caller: TaskShared::new+spawn missing, rendezvous send, run index 0, load, park/spurious, return; worker: recv, run, clone handle, fetch_sub, unpark, exit), for every script of broadcasts, every interleaving, any panicking subset: each returned broadcast had every index 0..=n called exactly once (0 on the caller, k on worker k) and nothing else; the caller leaves the loop only with counter 0, no worker before its decrement and all n+1 calls made; no worker ever touches a dead or foreign task block (handle cloned before the decrement); the caller's view at return contains all calls provided the decrement releases and the load acquires (obligations discharged against the orderings read from the source); result slots are Some i / None exactly for the non-panicked / panicked calls; threads are spawned only when missing and kept. The model is tied to the code by replaying every explored schedule of the verbatim pool.rs (shuttle: random, PCT, bounded DFS) through the extracted step function, and a monitor extracted from Coq evaluates the property clauses on the implementation's traces.",
     "note": "Trusted: Coq kernel, extraction, OCaml driver (token->label translation), harness hx-sched (sched_std shim over shuttle 0.9.3, liveness table), extract_consts.py. Implementation side is sequentially consistent only; memory-ordering edits are caught by the generated-constant obligations (VIOLATION ... no-failing-input-found). std's park/unpark/sync_channel/Mutex are assumed, the abort guard for a panicking panic payload is not modelled.",
